@@ -171,6 +171,16 @@ Definition offset_token_class (len : nat) (from : bytes) : offset_class :=
 Definition offset_in_range (len : nat) (from : bytes) : bool :=
   match offset_token_class len from with OcInRange => true | _ => false end.
 
+(* triggers of finding F5 (computed, not pattern-matched): which offset tokens the memory
+   ReadPage misreads *)
+Inductive finding := FNegativeOffsetPanics | FOffsetBeyondEndRestarts.
+Definition offset_finding (len : nat) (from : bytes) : option finding :=
+  match offset_token_class len from with
+  | OcNegative => Some FNegativeOffsetPanics
+  | OcBeyondEnd => if (0 <? len)%nat then Some FOffsetBeyondEndRestarts else None
+  | _ => None
+  end.
+
 (* memory backend, ListStores / ReadAuthorizationModels: sorted by id, offset clamped to [0,len] *)
 Definition page_clamp {A} (le : bytes -> bytes -> bool) (rows : list (bytes * A)) (size : N)
            (from : bytes) : outcome A :=
